@@ -22,7 +22,7 @@ BOUNDS = {
              'names, lines of exactly 77 / 78 octets, 8-bit value, LF line ends, Content-Transfer-Encoding '
              'present), separated by CRLF CRLF or LF LF: parse + flatten, '
              'copy(), pickle round trip, re-parse of the flattened output; '
-             'encode_7bit() without encoder; 14 malformed header blocks (no '
+             'encode_7bit() without encoder; 18 malformed header blocks (no '
              'colon, stray 8-bit line, over-long lines, NUL, empty) x 4 '
              'separators (CRLF CRLF, LF LF: every body of 2 bytes; single '
              'CRLF or none: 1 arbitrary byte appended) - parse/flatten/copy/'
@@ -80,6 +80,11 @@ MALFORMED = [
     b'X-A: caf\xc3\xa9 ' + b'y' * 100,
     b'X-A: \xffabc ' + b'y' * 100 + b'\r\nSubject: x',
     b'x' * 80 + b': \x1c',
+    # fields the stdlib's structured header parsers choke on
+    b'Content-Type: text/plain; charset *',
+    b'Subject: x\r\nContent-Type: text/plain; name *',
+    b'To: a:];' + b'x' * 75,
+    b'To: friends:]; a@b, c@d, e@f, g@h, i@j, k@l, m@n, o@p, q@r, s@t, u@v',
 ]
 TEXTS = ['héllo wörld\r\n', 'plain ascii\r\n',
          '中文 line one\r\nline two ü\r\n', 'é',
